@@ -30,8 +30,8 @@ def func_of(spec, tag):
     return m + ".add_constraints:ensures:" + str(t)
 
 
-def time_names(spec, meth):
-    """names of the opti symbols that are time-grid decision variables"""
+def time_names(spec, meth, decision_only=False):
+    """names of the opti symbols the time grid is made of (decision_only: without horizon PARAMETERS)"""
     names = set()
     for lst in (getattr(meth, "T_local", []), getattr(meth, "t0_local", [])):
         for e in lst:
@@ -46,7 +46,7 @@ def time_names(spec, meth):
                 names |= {n for n in ca._consts(x) if n in ca._SYMS}
     # a horizon given by a PARAMETER is data, not a decision variable
     opti = getattr(spec, "opti", None)
-    if opti is not None:
+    if opti is not None and decision_only:
         decision = {str(x) for v in opti._vars for x in v.e}
         names &= decision
     return names
@@ -64,7 +64,7 @@ def grid_spec_formula(spec, meth, orc, all_bounds=False):
     f = []
     h = [ca.e_sub(ts[k + 1].e[0], ts[k].e[0]) for k in range(N)]
     kind = g.get("kind", "uniform")
-    tn = time_names(spec, meth)
+    tn = time_names(spec, meth, decision_only=True)
     f.append(ca.tz(ts[0].e[0]) == ca.tz(t0))
     end_gap = ca.tz(ts[N].e[0]) - (ca.tz(t0) + ca.tz(T))
     localized = g.get("localize_T") or g.get("localize_t0") or kind == "free"
@@ -243,7 +243,9 @@ def check_nlp(spec, parts=("dynamics", "placement", "frame", "objective"), inst=
             c.fail("%s|direct_method:OptiWrapper.transcribe_placeholders:ensures:minimize-once" % inst, "Opti.minimize called %d times" % opti._n_minimize)
     if "init" in parts:
         from .oracle import expected_initial
-        start = opti.initial() + opti.value_parameters()
+        start = list(opti.initial())        # rockit's OptiWrapper.initial() already carries the parameter values
+        have = {str(x) for eq in start for x in ca.MX(eq.dep(1)).e}
+        start += [eq for eq in opti.value_parameters() if not ({str(x) for x in ca.MX(eq.dep(1)).e} & have)]
         for tag, handle, exp in expected_initial(spec, meth, spec.initial_realised):
             name = "%s|%s.set_initial:ensures:start[%s]" % (inst, MOD[spec.method] if spec.method == "DC" else "sampling_method:SamplingMethod", "/".join(str(t) for t in tag))
             try:
@@ -251,7 +253,10 @@ def check_nlp(spec, parts=("dynamics", "placement", "frame", "objective"), inst=
             except RuntimeError as e:
                 c.fail(name, "starting value cannot be read back: %s" % e)
                 continue
-            nlp.prove_equal(name, got, ca.MX(exp))
+            want = ca.MX(exp)
+            if want.has_symbols():
+                want = opti.value(want, start)          # a parametric horizon: the times implied by the parameter VALUES
+            nlp.prove_equal(name, got, want)
     if "pvals" in parts:
         # C09: column k of a per-interval parameter is the value on interval k (include_last: column N at the final node);
         # matrix-valued parameters keep their element layout; a later set_value replaces that parameter only
